@@ -214,6 +214,8 @@ struct Lifter<'a> {
     tolerant: bool,
     /// env depth at the entry of every enclosing closure that may run more than once (map / mapv / from_shape_fn)
     closure_base: Vec<usize>,
+    /// `named_sums` flag of the directive: `.sum()` of a compound array expression gets a named summand function
+    named_sums: bool,
     /// variables of an enclosing scope that the closure being lifted mutates (reads of them are not liftable)
     dirty_captured: Vec<String>,
     /// observables shared with the main function: binding name -> opaque spec fn to call instead of inlining
@@ -2392,6 +2394,10 @@ impl<'a> Lifter<'a> {
             ("max", "real") if args.len() == 1 => return Ok(v(format!("rmax({}, {})", recv.text, args[0].text), "real")),
             ("min", "real") if args.len() == 1 => return Ok(v(format!("rmin({}, {})", recv.text, args[0].text), "real")),
             ("powf", "real") if args.len() == 1 && args[0].ty == "real" => return Ok(v(format!("rpowf({}, {})", recv.text, args[0].text), "real")),
+            ("is_finite", "real") => {
+                self.note("A11", whole.span(), "is_finite() of a real is true (no NaN / infinity over the reals)");
+                return Ok(v("true".to_string(), "bool"));
+            }
             ("is_sign_negative", "real") => return Ok(v(format!("({} < 0real)", recv.text), "bool")),
             ("is_sign_positive", "real") => return Ok(v(format!("({} >= 0real)", recv.text), "bool")),
             ("powi", "real") => {
@@ -2423,7 +2429,17 @@ impl<'a> Lifter<'a> {
             }
             ("len", "RArr") => return Ok(v(format!("{}.len", recv.text), "int")),
             ("len", "Seq<int>") => return Ok(v(format!("({}.len() as int)", recv.text), "int")),
-            ("sum", "RArr") => return Ok(v(format!("rsum({0}.len, {0}.at)", recv.text), "real")),
+            ("sum", "RArr") => {
+                // the summand of a compound array expression is a named function (lemmas can then name it); only in units
+                // that ask for it (`named_sums`), so that existing proofs keep their term shapes
+                if self.named_sums && !matches!(&*m.receiver, syn::Expr::Path(_)) {
+                    let ids = Self::idents_of(&m.receiver);
+                    let body = v(format!("({}.at)(i__s)", recv.text), "real");
+                    let f = self.hoist_closure("sumterm", &ids, "i__s", &body);
+                    return Ok(v(format!("rsum({}.len, {f})", recv.text), "real"));
+                }
+                return Ok(v(format!("rsum({0}.len, {0}.at)", recv.text), "real"));
+            }
             ("get", "RArr") if args.len() == 1 => return self.elem(&recv, &args[0].text),
             ("mapv", "RArr") => {
                 let (pn, body) = self.closure1(&m.args[0], "real")?;
@@ -2679,6 +2695,7 @@ pub fn lift_fn(ctx: &mut Ctx, blk: &Block) -> Result<(String, Value), String> {
     let mut out_param = None;
     for a in &f.sig.inputs {
         match a {
+            syn::FnArg::Receiver(_) if blk.opt("tail_from").is_some() => {}
             syn::FnArg::Receiver(_) => {
                 let t = match &self_ty {
                     Some(st) => reg.types.get(st).cloned().unwrap_or(format!("L_{st}")),
@@ -2697,7 +2714,11 @@ pub fn lift_fn(ctx: &mut Ctx, blk: &Block) -> Result<(String, Value), String> {
                         out_param = Some(pn.clone());
                     }
                 }
-                let ty = lift_type(reg, &t.ty, self_ty.as_deref()).map_err(|e| format!("parameter {pn}: {e}"))?;
+                let ty = match lift_type(reg, &t.ty, self_ty.as_deref()) {
+                    Ok(t) => t,
+                    Err(_) if blk.opt("tail_from").is_some() => continue, // tail lifts declare what they read themselves
+                    Err(e) => return Err(format!("parameter {pn}: {e}")),
+                };
                 params.push((pn, ty));
             }
         }
@@ -2787,9 +2808,61 @@ pub fn lift_fn(ctx: &mut Ctx, blk: &Block) -> Result<(String, Value), String> {
         synth_block = Some(syn::Block { brace_token: Default::default(), stmts });
         params.push((pname.to_string(), pty.to_string()));
     }
+    // L28 tail-as-function: `tail_from=<local> tail_locals=a:T;b:U ret=<type>` lifts the statements from the binding of
+    // <local> to the end of the function as a function of the listed variables (whatever the statements before computed:
+    // every variable the tail reads must be listed, with its lifted type)
+    if let Some(from) = blk.opt("tail_from") {
+        let k = f.block.stmts.iter().position(|st| matches!(st, syn::Stmt::Local(l) if matches!(&l.pat, syn::Pat::Ident(pi) if pi.ident == from)
+            || matches!(&l.pat, syn::Pat::Type(pt) if matches!(&*pt.pat, syn::Pat::Ident(pi) if pi.ident == from))));
+        let Some(k) = k else { return Err(format!("lost anchor: no binding of `{from}` in {path}")) };
+        let stmts: Vec<syn::Stmt> = f.block.stmts[k..].to_vec();
+        params.clear();
+        for kv in blk.opt("tail_locals").unwrap_or("").split(';').filter(|x| !x.is_empty()) {
+            let (n, t) = kv.split_once(':').ok_or("tail_locals=name:type;...")?;
+            params.push((n.trim().to_string(), t.trim().to_string()));
+        }
+        // every identifier the tail mentions that the function binds before the tail (or takes as a parameter) must be listed
+        let mut before: Vec<String> = Vec::new();
+        for a in &f.sig.inputs {
+            if let syn::FnArg::Typed(t) = a {
+                if let syn::Pat::Ident(i) = &*t.pat {
+                    before.push(i.ident.to_string());
+                }
+            }
+        }
+        {
+            struct PB<'z>(&'z mut Vec<String>);
+            impl<'ast, 'z> syn::visit::Visit<'ast> for PB<'z> {
+                fn visit_pat_ident(&mut self, i: &'ast syn::PatIdent) {
+                    self.0.push(i.ident.to_string());
+                }
+            }
+            for st in &f.block.stmts[..k] {
+                syn::visit::Visit::visit_stmt(&mut PB(&mut before), st);
+            }
+        }
+        let tail_blk = syn::Block { brace_token: Default::default(), stmts: stmts.clone() };
+        let used = Lifter::idents_of(&tail_blk);
+        let mut own: Vec<String> = Vec::new();
+        {
+            struct PB<'z>(&'z mut Vec<String>);
+            impl<'ast, 'z> syn::visit::Visit<'ast> for PB<'z> {
+                fn visit_pat_ident(&mut self, i: &'ast syn::PatIdent) {
+                    self.0.push(i.ident.to_string());
+                }
+            }
+            syn::visit::Visit::visit_block(&mut PB(&mut own), &tail_blk);
+        }
+        for b in &before {
+            if used.contains(b) && !own.contains(b) && !params.iter().any(|(n, _)| n == b) {
+                return Err(format!("construct outside rule list (lift): the tail from `{from}` reads `{b}`, which is not listed in tail_locals"));
+            }
+        }
+        synth_block = Some(tail_blk);
+    }
     let fblock: &syn::Block = synth_block.as_ref().unwrap_or(f.block);
     let ret_ty = match &f.sig.output {
-        _ if blk.opt("closure").is_some() => blk.opt("ret").ok_or("lift: closure= needs ret=<type>")?.to_string(),
+        _ if blk.opt("closure").is_some() || blk.opt("tail_from").is_some() => blk.opt("ret").ok_or("lift: closure= / tail_from= need ret=<type>")?.to_string(),
         syn::ReturnType::Default => match &out_param {
             Some(p) => params.iter().find(|(n, _)| n == p).unwrap().1.clone(),
             None => return Err("construct outside rule list (lift): function returns () and has no &mut parameter".into()),
@@ -2950,6 +3023,7 @@ pub fn lift_fn(ctx: &mut Ctx, blk: &Block) -> Result<(String, Value), String> {
             calls_seen: HashMap::new(),
             tolerant: blk.flag("tolerant") && observe.is_some(),
             closure_base: vec![],
+            named_sums: blk.flag("named_sums"),
             dirty_captured: vec![],
             loopvars: blk.opt("loopvars").map(|t| t.split(';').filter_map(|kv| kv.split_once(':').map(|(a, b)| (a.trim().to_string(), b.trim().to_string()))).collect()).unwrap_or_default(),
             shared: if blk.flag("share_observed") { outputs.iter().filter_map(|(n, o)| o.clone().map(|o| (o, n.clone()))).collect() } else { HashMap::new() },
